@@ -12,6 +12,7 @@ import Mathy.Model.Tree
 import Mathy.Model.Layout
 import Mathy.Model.PyEval
 import Mathy.Model.TermsLike
+import Mathy.Model.SubTerms
 import Mathy.Model.Problems
 namespace Mathy
 
